@@ -347,6 +347,12 @@ func (c *Ctx) finish(start time.Time, runErr error, mut *MutantSummary) int {
 	}
 	wall := time.Since(start).Seconds()
 
+	// debugging aid: VERIF_DUMP=1 writes every obligation (not only the samples kept in the evidence) to out/
+	if os.Getenv("VERIF_DUMP") != "" {
+		_ = os.MkdirAll(filepath.Join(verifDir, "out"), 0o755)
+		ob, _ := json.MarshalIndent(c.Obls, "", " ")
+		_ = os.WriteFile(filepath.Join(verifDir, "out", fmt.Sprintf("%s.%s.obligations.json", c.Prop, c.Tier)), ob, 0o644)
+	}
 	// samples
 	var samples []interface{}
 	perRule := map[string]int{}
